@@ -16,7 +16,8 @@ EXPLANATION = (
     "non-scratch state outside the balanced temporary-move protocol (centroid/center setter ... same setter with the "
     "value saved from the getter before the move, on every normal exit); Q-2 no by-reference attribute is rebound while "
     "the shape is moved and no normal exit leaves it moved (arrays handed out earlier would be orphaned/translated); "
-    "Q-3 no argument array is modified in place (aliases through asarray/atleast_2d/slices tracked); Q-4 io writers "
+    "Q-3 no argument array is modified in place (aliases through asarray/atleast_2d/slices tracked); Q-5 no write to "
+    "module-level state (memo tables); Q-4 io writers "
     "that modify do so on a deepcopy. Scratch attributes are derived: every read in every public entry is preceded by "
     "a write in the same entry."
 )
@@ -114,6 +115,15 @@ def _check_query(res, index, cls, label, fn, self_cls, scratch, byref, args=None
             seen.add(k)
             bad = True
             res.bad("Q-3", k, e.where(), f"query {label} modifies its argument `{e.loc[1]}` in place: `{e.src()[:70]}`")
+    for e in r["events"]:
+        if e.type == "global-write" and e.func is not None and e.func.module.name.startswith(("coxeter.shapes", "coxeter.io", "coxeter.shape_getters")):
+            k = f"{label}:global:{e.name}"
+            if k in seen:
+                continue
+            seen.add(k)
+            bad = True
+            res.bad("Q-5", k, e.where(), f"query {label} writes module-level state `{e.name}` (`{e.src()[:60]}`): results memoised outside the "
+                    f"shape go stale after a mutation and repeated queries need not agree")
     if any(e.type == "random" for e in r["events"]):
         res.notes.append(f"{label}: result may depend on rowan.random (miniball retry path) - 'same answer' not decided")
     if not bad:
